@@ -10,15 +10,17 @@ TITLE = "Parsing is a pure function of the string, whatever happened before"
 ENGINE = "e2-history-bfs"
 ISOLATE_PARTITIONS = True  # every partition starts from cold parser caches
 
-COND = ["[1] U ([2] O [3])", "[4P0..1][901] X [UB3]"]
+COND = ["[1] U ([2] O [3])", "[4P0..1][901] X [UB3]", "[1000] O ([0] U [2500])", "[12] U [34P]"]
+# malformed strings that become a string of COND when whitespace is removed (a blank INSIDE a key)
+MALFORMED = ["[1 2] U [34P]", "[12] U [34 P]"]
 AHB = ["Muss [1] U [2] Soll [3]"]
 PACKAGES = {"4P": "[1] O [3]"}
 RC = {"1": "F", "2": "U", "3": "?", "492": "F", "493": "U"}
 FC = {"901": (True, None), "932": (True, None), "934": (False, "msg 934")}
 EDIT_KINDS = ["replace_child", "delete_child", "append_child", "clear_children", "rename_node"]
 FLOOD_N = 1100
-NONEDIT_OPS = [["Pc", 0], ["Pc", 1], ["Pa", 0], ["R", 0], ["R", 1], ["Ev", 0], ["Flood"]]
-BOUNDS = {"quick": {"depth": 3, "max_edits": 2, "flood_depth": 3, "spread": 8},
+NONEDIT_OPS = [["Pc", 0], ["Pc", 1], ["Pc", 2], ["Pc", 3], ["Pm", 0], ["Pm", 1], ["Pa", 0], ["R", 0], ["R", 1], ["Ev", 0], ["Flood"]]
+BOUNDS = {"quick": {"depth": 3, "max_edits": 1, "flood_depth": 2, "spread": 4},
           "thorough": {"depth": 4, "max_edits": 2, "flood_depth": 4, "spread": 48}}
 
 
@@ -26,7 +28,8 @@ def describe(tier):
     b = BOUNDS[tier]
     return {
         "rule": f"breadth-first search over ALL operation histories up to depth {b['depth']} over the alphabet Pc(s) (condition parser, "
-                f"{len(COND)} strings), Pa(s) (AHB parser), R(s) (resolver with packages + time conditions, AHB and condition string), Ev(s) "
+                f"{len(COND)} strings incl. keys outside the number ranges), Pm(s) (a MALFORMED string that equals a valid one when whitespace is "
+                "removed), Pa(s) (AHB parser), R(s) (resolver with packages + time conditions, AHB and condition string), Ev(s) "
                 "(evaluate under a fixed content evaluation result), Edit(handle, node, kind) on one of the last two returned trees for EVERY "
                 f"node of the tree and kind in {EDIT_KINDS}, Flood (= {FLOOD_N} fresh distinct strings through both public parsers: real LRU "
                 f"eviction, every flooded result checked); at most {b['max_edits']} edits per history, at most one flood, floods only in "
@@ -68,7 +71,8 @@ def worker_init():
     # snapshot in the cold initial state, through the public functions, of the base spellings
     I = impl
     for i, s in enumerate(COND):
-        _EXP[("Pc", i)] = I.tree_to_tuple(I.parse_condition_expression_to_tree(s))
+        r = I.try_call(I.parse_condition_expression_to_tree, s)
+        _EXP[("Pc", i)] = I.tree_to_tuple(r[1]) if r[0] == "ok" else ("exc", r[1])
     _EXP[("Pa", 0)] = I.tree_to_tuple(I.parse_ahb_expression_to_single_requirement_indicator_expressions(AHB[0]))
     _EXP[("R", 0)] = I.tree_to_tuple(_resolve(AHB[0]))
     _EXP[("R", 1)] = I.tree_to_tuple(_resolve(COND[1]))
@@ -158,7 +162,13 @@ def _apply(world: World, op):
 
     viol = []
     kind = op[0]
-    if kind in ("Pc", "Pa", "R"):
+    if kind == "Pm":
+        # a malformed sibling spelling (must be rejected; must not influence anything else)
+        r = I.try_call(I.parse_condition_expression_to_tree, MALFORMED[op[1]] + world.pad)
+        if r[0] == "ok" or not isinstance(r[2], SyntaxError):
+            viol.append({"kind": "parse-differs-from-fresh", "target": f"Pm{op[1]} (malformed string)", "expected": "SyntaxError",
+                         "observed": "a tree" if r[0] == "ok" else r[1]})
+    elif kind in ("Pc", "Pa", "R"):
         if kind == "Pc":
             r = I.try_call(I.parse_condition_expression_to_tree, world.cond(op[1]))
         elif kind == "Pa":
@@ -167,6 +177,8 @@ def _apply(world: World, op):
             r = I.try_call(_resolve, world.ahb(0) if op[1] == 0 else world.cond(1))
         if r[0] == "ok":
             world.handles = (world.handles + [r[1]])[-2:]
+        elif kind == "Pc" and _EXP[("Pc", op[1])] == ("exc", r[1]):
+            pass  # raised in the cold initial state, too
         else:  # the same call succeeded in the cold initial state
             viol.append({"kind": "parse-differs-from-fresh", "target": f"{kind}{op[1]} (operation itself)",
                          "expected": "a tree, as in the initial state", "observed": r[1]})
@@ -229,6 +241,8 @@ def _invariant(world: World):
     obs = [
         (("Pc", 0), lambda: I.tree_to_tuple(I.parse_condition_expression_to_tree(world.cond(0)))),
         (("Pc", 1), lambda: I.tree_to_tuple(I.parse_condition_expression_to_tree(world.cond(1)))),
+        (("Pc", 2), lambda: I.tree_to_tuple(I.parse_condition_expression_to_tree(world.cond(2)))),
+        (("Pc", 3), lambda: I.tree_to_tuple(I.parse_condition_expression_to_tree(world.cond(3)))),
         (("Pa", 0), lambda: I.tree_to_tuple(I.parse_ahb_expression_to_single_requirement_indicator_expressions(world.ahb(0)))),
         (("R", 0), lambda: I.tree_to_tuple(_resolve(world.ahb(0)))),
         (("R", 1), lambda: I.tree_to_tuple(_resolve(world.cond(1)))),
